@@ -1,0 +1,89 @@
+//! Verification hooks. This module only exists when the crate is compiled with
+//! `--cfg blake3_team_blake3_verif` (and the `std` feature). It is never part of
+//! a normal build and is not a public API.
+//!
+//! Three seams are provided for an external deterministic simulator:
+//!
+//! - a per-thread override of [`Platform::detect`](crate::platform::Platform::detect),
+//! - a process-global callback invoked at every kernel dispatch ("yield point"),
+//! - a process-global callback that decides how the two halves of each
+//!   recursive split in `compress_subtree_wide` are executed (see `join::VerifJoin`).
+//!
+//! With no callback installed and no override set, every hook is a no-op.
+
+use crate::platform::Platform;
+use core::sync::atomic::{AtomicPtr, Ordering};
+use std::cell::Cell;
+
+/// Yield-point site identifiers.
+pub const SITE_DETECT: u32 = 0;
+pub const SITE_COMPRESS_IN_PLACE: u32 = 1;
+pub const SITE_COMPRESS_XOF: u32 = 2;
+pub const SITE_HASH_MANY: u32 = 3;
+pub const SITE_XOF_MANY: u32 = 4;
+
+std::thread_local! {
+    static PLATFORM_OVERRIDE: Cell<Option<Platform>> = const { Cell::new(None) };
+}
+
+/// Force `Platform::detect()` to return `platform` on the calling thread
+/// (`None` restores real detection). The caller is responsible for only
+/// forcing platforms the CPU supports.
+pub fn set_platform(platform: Option<Platform>) {
+    PLATFORM_OVERRIDE.with(|p| p.set(platform));
+}
+
+#[inline]
+pub(crate) fn platform_override() -> Option<Platform> {
+    PLATFORM_OVERRIDE.with(|p| p.get())
+}
+
+pub type YieldHook = fn(u32);
+
+static YIELD_HOOK: AtomicPtr<()> = AtomicPtr::new(core::ptr::null_mut());
+
+/// Install (or remove) the process-global yield callback.
+pub fn set_yield_hook(hook: Option<YieldHook>) {
+    let p = match hook {
+        Some(f) => f as *mut (),
+        None => core::ptr::null_mut(),
+    };
+    YIELD_HOOK.store(p, Ordering::SeqCst);
+}
+
+#[inline]
+pub(crate) fn yield_point(site: u32) {
+    let p = YIELD_HOOK.load(Ordering::Relaxed);
+    if !p.is_null() {
+        // SAFETY: the only non-null values ever stored are `YieldHook` function pointers.
+        let f: YieldHook = unsafe { core::mem::transmute::<*mut (), YieldHook>(p) };
+        f(site);
+    }
+}
+
+/// The two halves of one split, type-erased. Each must be called exactly once.
+pub type JoinHalf<'a> = &'a mut (dyn FnMut() + Send);
+pub type JoinHook = fn(JoinHalf<'_>, JoinHalf<'_>);
+
+static JOIN_HOOK: AtomicPtr<()> = AtomicPtr::new(core::ptr::null_mut());
+
+/// Install (or remove) the process-global join callback used by `VerifJoin`.
+pub fn set_join_hook(hook: Option<JoinHook>) {
+    let p = match hook {
+        Some(f) => f as *mut (),
+        None => core::ptr::null_mut(),
+    };
+    JOIN_HOOK.store(p, Ordering::SeqCst);
+}
+
+pub(crate) fn join_dispatch(left: JoinHalf<'_>, right: JoinHalf<'_>) {
+    let p = JOIN_HOOK.load(Ordering::Relaxed);
+    if p.is_null() {
+        left();
+        right();
+    } else {
+        // SAFETY: the only non-null values ever stored are `JoinHook` function pointers.
+        let f: JoinHook = unsafe { core::mem::transmute::<*mut (), JoinHook>(p) };
+        f(left, right);
+    }
+}
